@@ -240,7 +240,7 @@ def corpus():
 
 
 def gen_cases(rng, tier):
-    n_rand, n_coop, grids = {"quick": (150, 250, 1), "thorough": (6000, 8000, 8), "search": (600, 900, 2)}[tier]
+    n_rand, n_coop, grids = {"quick": (150, 250, 1), "thorough": (30000, 40000, 20), "search": (600, 900, 2)}[tier]
     for _ in range(grids):
         yield from grid_cases(rng)
     g = Gen(rng)
